@@ -142,7 +142,7 @@ func c37ExecMain() {
 			os.Exit(3)
 		}
 		var b []byte
-		if c.Mode == "cap" || c.Mode == "srv" {
+		if c.Mode == "cap" || c.Mode == "srv" || c.Mode == "hgt" {
 			b, _ = json.Marshal(capRun(c))
 		} else {
 			b, _ = json.Marshal(c37RunConc(c))
